@@ -315,8 +315,8 @@ FIXED = [
 
 # ------------------------------------------------------------------ skeleton-first stream for the correspondence
 
-def corr_case(rng, standalone):
-    """one join-skeleton case: returns dict(sql, cat, line) where `line` is the input of Driver/Plan.lean.
+def _join_case(rng, top=True):
+    """one join-skeleton case (a SELECT whose FROM is a join handled by PlanJoinTablesQuery): returns dict(sql, cat, line) where `line` is the input of Driver/Plan.lean.
     `standalone(sql_text, cat)` plans a select on its own with the real planner and returns
     (list of abstract steps, index of the answer step) — used for the blocks of sub-selects, nested selects
     and CTE bodies, which the model takes as given."""
@@ -434,43 +434,150 @@ def corr_case(rng, standalone):
     wrap = bool(where or tail or targets != '*')
     # a query that mentions one sql integration only and no project entity is shipped whole to that
     # integration (check_single_integration) and never reaches the join planner: outside the fragment
-    if 'proj.' not in sql and not ('int1.' in sql and 'int2.' in sql):
-        return 'single-integration'
-    # blocks
-    def steps_txt(asteps):
-        return ' '.join('(s %s %s (r %s) (u %s))' % (
-            s['kind'], s['num'], ' '.join(s['refs']),
-            ' '.join('(v %s %s (r %s))' % (u['kind'], u['num'], ' '.join(u['refs'])) for u in s['subs'])) for s in asteps)
-    pre_txt, pre_res, base = [], [], 0
-    for (t, keep) in pre_blocks:
-        b, ret = standalone(t, cat)
-        if b is None:
-            return None
-        pre_txt.append('(b %d %d %s)' % (ret, 1 if keep else 0, steps_txt(b)))
-        pre_res.append(base + ret)
-        base += len(b)
+    single = 'proj.' not in sql and not ('int1.' in sql and 'int2.' in sql)
+    # CTE bodies and nested selects are `bind`s around the join node; `uses` index the environment (0 = innermost)
+    m = len(pre_blocks)
     def leaf(i):
         o = ops[i]
         if o['kind'] in ('table', 'cte'):
-            pre = [pre_res[j] for j in pre_of[i]] if not has_or else []
+            pre = [m - 1 - j for j in pre_of[i]] if not has_or else []
             if o['kind'] == 'cte':
-                pre = [pre_res[0]] + pre
-            return '(T %d (d %s) (p %s))' % (1 if o['kind'] == 'cte' else 0, ' '.join(map(str, dataconds[i])),
+                pre = [m - 1] + pre
+            return '(T %d (d %s) (u %s))' % (1 if o['kind'] == 'cte' else 0, ' '.join(map(str, dataconds[i])),
                                              ' '.join(map(str, pre)))
         if o['kind'] in ('model', 'ts'):
             return '(M %d %d)' % (1 if o['kind'] == 'ts' else 0, 1 if (ps_all or i in ps_of) else 0)
-        b, ret = standalone(o['inner'], cat)
-        if b is None:
-            return None
-        return '(S %d %d %s)' % (1 if o['aliased'] else 0, ret, steps_txt(b))
+        return '(S %d %s)' % (1 if o['aliased'] else 0, INNER[o['inner']])
     tree = leaf(0)
-    if tree is None:
-        return None
     for i in range(1, n):
-        l = leaf(i)
-        if l is None:
-            return None
-        tree = '(j %s %s)' % (tree, l)
-    line = '0 (q %d (pre %s) %s)' % (1 if wrap else 0, ' '.join(pre_txt), tree)
-    return dict(sql=sql, cat=catname, line=line, shape='%d:%s%s' % (n, ''.join(o['kind'][0] for o in ops),
+        tree = '(j %s %s)' % (tree, leaf(i))
+    term = '(jt %s %d (u %s))' % (tree, 1 if wrap else 0,
+                                  ' '.join(str(m - 1 - j) for j, (_, keep) in enumerate(pre_blocks) if keep))
+    for (t, keep) in reversed(pre_blocks):
+        term = '(bind (tab 0 (u)) %s)' % term
+    if single:
+        term = '(whole)'        # check_single_integration: one FetchDataframeStep, nothing else is planned
+    return dict(sql=sql, cat=catname, term=term, shape='%d:%s%s' % (n, ''.join(o['kind'][0] for o in ops),
                                                                    '+ps' if (ps_all or ps_of) else ''))
+
+
+# sub-selects used as join operands, with their skeletons
+INNER = {
+    'select * from int2.tab3': '(tab 0 (u))',
+    'select id, x from int1.tab1 where x > 1': '(tab 0 (u))',
+    'select * from int1.tab1 limit 3': '(tab 0 (u))',
+    'select * from int1.tab1 b1 join proj.m1 b2': '(jt (j (T 0 (d) (u)) (M 0 0)) 0 (u))',
+    'select * from int1.tab1 b1 join int2.tab3 b2 on b1.id = b2.id': '(jt (j (T 0 (d) (u)) (T 0 (d 0) (u))) 0 (u))',
+    'select * from proj.m1 where x = 1': '(pred 0 (u) 1 (u))',
+}
+
+
+def _sel(r, depth, has_ns):
+    """a SELECT planned by plan_select (not at statement level): (sql, skeleton)"""
+    k = r.random()
+    if k < 0.22:
+        t = r.choice(['int1.tab1', 'int1.tab2', 'int2.tab3', 'int2.tab4'])
+        sql = 'select %s from %s%s%s' % (r.choice(['*', 'x', 'id, x', 'max(x)']), t,
+                                        r.choice(['', ' where x > 1', " where y = 's' and x < 3"]),
+                                        r.choice(['', ' limit 3', ' order by x']))
+        return sql, '(tab 0 (u))'
+    if k < 0.34:
+        v = r.choice([0, 1, 2, 3])
+        if v == 0:
+            return 'select * from proj.m1 where x = 1', '(pred 0 (u) 1 (u))'
+        if v == 1:
+            return "select y, x from proj.m2 where x = 1 and z = 's'", '(pred 0 (u) 0 (u))'
+        if v == 2:
+            return 'select * from proj.m1 where 1 = 0', '(pred 1 (u) 1 (u))'
+        return 'select * from proj.m1', '(fail 0)'
+    if k < 0.44:
+        # nested select over another integration in WHERE: planned first, replaced by Parameter(Result)
+        a, b = r.choice([('int1.tab1', 'int2.tab3'), ('int2.tab4', 'int1.tab2')])
+        op = r.choice(['in', '=', '>'])
+        return 'select * from %s where x %s (select id from %s%s)' % (a, op, b, r.choice(['', ' where y = 1'])), \
+            '(bind (tab 0 (u)) (tab 0 (u 0)))'
+    if k < 0.50:
+        w = r.choice([0, 1])
+        return 'select %s from int1 (select 1 from raw)%s' % ('*' if not w else r.choice(['a', '*']), ' where a = 1' if w else ''), \
+            '(nat %d (u))' % w
+    if k < 0.55:
+        return 'select proj.fn(x) from %s' % r.choice(['int1.tab1', 'int2.tab3']), '(fn (u) 1 (u))'
+    if k < 0.70 and depth < 2:
+        sql, t = _sel(r, depth + 1, has_ns)
+        while t.startswith('(un '):      # FROM (a UNION b) is 'Unsupported from_table'; not generated
+            sql, t = _sel(r, depth + 1, has_ns)
+        w = r.choice([0, 1, 1])
+        outer = {0: 'select * from (%s)%s', 1: r.choice(['select x from (%s)%s', 'select * from (%s)%s where x = 1',
+                                                         'select * from (%s)%s limit 2'])}[w]
+        return outer % (sql, r.choice([' as s', ''])), '(fs %s %d)' % (t, w)
+    if k < 0.82:
+        # time-series join
+        grouped = r.random() < 0.5
+        model = 'proj.ts1' if grouped else 'proj.ts2'
+        tf, two = r.choice([('', 0), (' where ta.t > latest', 0), (" where ta.t > '2020-01-01'", 1),
+                            (" where ta.t between '2020-01-01' and '2020-02-01'", 1), (" where ta.t = '2020-01-01'", 0),
+                            (" where ta.t >= '2020-01-01' and ta.g = 1" if grouped else " where ta.t >= '2020-01-01'", 1)])
+        lim = r.choice([0, 0, 1])
+        star = r.choice([1, 1, 0])
+        left = r.random() < 0.25
+        frm = ('%s tb join int1.tab1 ta' % model) if left else ('int1.tab1 ta join %s tb' % model)
+        sql = 'select %s from %s%s%s' % ('*' if star else 'tb.y, ta.x', frm, tf, ' limit 7' if lim else '')
+        return sql, '(ts %d %d 0 %d %d (u))' % (1 if grouped else 0, two, lim, star)
+    if k < 0.90 and depth < 2:
+        l, lt = _sel(r, depth + 1, has_ns)
+        rr, rt = _sel(r, depth + 1, has_ns)
+        while rt.startswith('(un '):     # set operations associate to the left: keep the right operand simple
+            rr, rt = _sel(r, depth + 1, has_ns)
+        if ' limit' in l or ' order by' in l:
+            l, lt = 'select * from int1.tab1', '(tab 0 (u))'
+        return '%s %s %s' % (l, r.choice(['union', 'union all', 'intersect', 'except']), rr), '(un %s %s)' % (lt, rt)
+    c = _join_case(r, top=False)
+    while not isinstance(c, dict) or c['sql'].startswith('with '):
+        c = _join_case(r, top=False)
+    return c['sql'], c['term']
+
+
+def corr_case(rng, standalone=None):
+    """one correspondence case: dict(sql, cat, line, shape); `line` is the input of Driver/Plan.lean"""
+    r = rng
+    k = r.random()
+    if k < 0.5:
+        c = _join_case(r)
+        if not isinstance(c, dict):
+            return c
+        c['line'] = '0 (sel %s)' % c.pop('term')
+        return c
+    cats = catalogs()
+    catname = r.choice(sorted(cats))
+    has_ns = cats[catname].get('default_namespace') == 'proj'
+    kind = r.choice(['sel', 'sel', 'sel', 'ins', 'cta', 'upd', 'del', 'misc'])
+    if kind == 'misc':
+        sql, line = r.choice([("insert into int1.t9 (a, b) values (1, 's')", '(insv)'),
+                              ('create table int1.t9 (a int, b text)', '(ct 1)'),
+                              ("update int1.t9 set a = 1 where b = 's'", '(upd0)')])
+        return dict(sql=sql, cat=catname, line='0 ' + line, shape='misc')
+    if kind == 'del':
+        a, b = r.choice([('int1.t9', 'int2.tab3'), ('int2.t9', 'int1.tab2')])
+        v = r.choice([0, 1, 2])
+        if v == 0:
+            return dict(sql='delete from %s where a = 1' % a, cat=catname, line='0 (del (dml 4 (u)))', shape='del')
+        if v == 1:
+            return dict(sql='delete from %s where a in (select id from %s)' % (a, b), cat=catname,
+                        line='0 (del (bind (tab 0 (u)) (dml 4 (u 0))))', shape='del')
+        return dict(sql='delete from %s where a in (select id from %s) and b > (select max(x) from %s)' % (a, b, b),
+                    cat=catname, line='0 (del (bind (tab 0 (u)) (bind (tab 0 (u)) (dml 4 (u 1 0)))))', shape='del')
+    sql, term = _sel(r, 0, has_ns)
+    while kind == 'upd' and term.startswith('(un '):     # UPDATE … FROM (a UNION b) is not in the grammar
+        sql, term = _sel(r, 0, has_ns)
+    if kind == 'sel':
+        # at statement level a query over one sql integration and no project entity is shipped whole
+        if 'proj.' not in sql and 'int1 (' not in sql and not ('int1.' in sql and 'int2.' in sql):
+            term = '(whole)'
+        return dict(sql=sql, cat=catname, line='0 (sel %s)' % term, shape='sel/' + term.split(' ')[0].strip('()'))
+    if kind == 'ins':
+        return dict(sql='insert into int1.t9 (%s)' % sql, cat=catname, line='0 (ins %s)' % term, shape='ins')
+    if kind == 'cta':
+        return dict(sql='create %stable int1.t9 (%s)' % (r.choice(['', 'or replace ']), sql), cat=catname,
+                    line='0 (cta %s)' % term, shape='cta')
+    return dict(sql='update int1.t9 set a = df.x from (%s) as df where t9.id = df.id' % sql, cat=catname,
+                line='0 (upd %s)' % term, shape='upd')
